@@ -113,6 +113,7 @@ func main() {
 	noEvidence := flag.Bool("no-evidence", false, "do not write evidence/replay files (used for mutant runs)")
 	dump := flag.String("dump", "", "debug: dump origins of calls in function")
 	verbose := flag.Bool("v", false, "print every obligation")
+	loops := flag.Bool("loops", false, "debug: list every range loop and its early exits")
 	flag.Parse()
 	if *verif == "" {
 		exe, _ := os.Executable()
@@ -126,6 +127,15 @@ func main() {
 			os.Exit(2)
 		}
 		debugDump(prog, *dump)
+		return
+	}
+	if *loops {
+		prog, err := loadProg(*repo, "linux")
+		if err != nil {
+			fmt.Println(err)
+			os.Exit(2)
+		}
+		dumpLoops(&Ctx{Prog: prog})
 		return
 	}
 	prop := registry[*property]
